@@ -43,6 +43,11 @@ class PosIO(Native):
             if not isinstance(nbits, int):
                 interp.event('read_rest', typ, nbits)
                 raise Raise('Unsupported-width', node, interp.where(node, frame))
+            if nbits < 0 and typ != 'bool':
+                # bitstring cannot parse a negative length: ValueError, which the reader's wrapper does not convert (trusted-base fact,
+                # confirmed by experiment: read('bin:-5') -> ValueError "Can't parse 'name[:]length' token")
+                interp.event('read_negative', typ, nbits)
+                raise Raise('ValueError', node, interp.where(node, frame))
             self.pos += nbits if typ != 'bool' else 1
             v = self.reads.pop(0) if self.reads else Sym('rd%d' % self.pos)
             interp.event('read', typ, nbits, v)
@@ -383,6 +388,25 @@ def rule_r3(repo, tier):
                 if not r.ok or r.value != declared * 8:
                     rr.fail(key + ':extent', fi.where, 'a section declared %d octets is consumed as %s bits (outcome %s), expected exactly %d' % (
                         declared, r.value, r.describe(), declared * 8), witness={'declared': declared, 'content_bits': content_bits})
+    # a section whose last parameter takes "the rest of the section" (section 2: local bits): a declared length shorter than the
+    # fixed part leaves a negative rest
+    for declared in (0, 1, 2, 3, 4, 5, 9):
+        it = SecInterp(repo, 'Decoder', 0)
+
+        def mk2():
+            sec = SectionModel([param('section_length', 24), param('reserved_bits', 8, 'bin'), param('local_bits', 0, 'bin')], {'index': 2})
+            return {'self': Obj('Decoder', {}), 'bufr_message': message(4), 'bit_reader': PosIO(104, [declared, '00000000']), 'section': sec}
+        res = it.run_function(fi, mk2, self_class='Decoder')
+        rr.instance('decoder: section with a rest-of-section parameter declared %d octets (fixed part 4)' % declared)
+        for r in res:
+            if declared < 4:
+                if r.ok or not it_is_lib_error(repo, r.exc.cls):
+                    rr.fail('Decoder.process_section:declared:shorter-than-fixed-part', fi.where, 'a section declared %d octets whose fixed part is 4 octets, followed by a '
+                            'parameter that takes the rest of the section, is not reported with PyBufrKitError (outcome %s): the negative rest is handed to the bit '
+                            'reader' % (declared, r.describe()), witness={'declared': declared})
+            elif not r.ok or r.value != declared * 8:
+                rr.fail('Decoder.process_section:declared:extent', fi.where, 'a section declared %d octets with a rest-of-section parameter is consumed as %s bits (%s)' % (
+                    declared, r.value, r.describe()), witness={'declared': declared})
     # (the three outcomes of the total length in Encoder.process - computed / kept / refused - are decided by the fold of R1)
     rr.require_floor(30)
     return rr
